@@ -13,6 +13,8 @@ structure St where
   oldSpecs : List Names.Spec := []       -- specs of the archived families
   errSeen : Nat := 0
   linkText : String := "-"               -- rendered symlink target (rendered when it was created)
+  asyncMode : Bool := false              -- MODE async:..
+  asyncDead : Bool := false              -- the async writer thread has been shut down
 
 def optNat (s : String) : Option (Option Nat) :=
   if s = "_" then some none else s.toNat?.map some
@@ -116,6 +118,24 @@ def step (s : St) (toks : List String) : St × String :=
     match now.toNat?, parseFaults fl with
     | some now, some fl => apply s .rotate now fl
     | _, _ => (s, "bad-op")
+  | ["VIA", _] => (s, "ok")
+  | ["LW", b, now] =>
+    match hexToBytes b, now.toNat? with
+    | some b, some now =>
+      -- async mode: once the writer thread is gone the record is lost (`Send` error, swallowed)
+      if s.asyncDead then (s, "ok") else apply s (.write b) now {}
+    | _, _ => (s, "bad-op")
+  | ["LFLUSH"] => let (s', _) := apply s .flush 0 {}; (s', "ok")
+  | ["LSHUT"] =>
+    let (s', _) := apply s .shutdown 0 {}
+    ({ s' with asyncDead := s.asyncDead || s.asyncMode }, "ok")
+  | ["LCLONE"] => (s, "ok")
+  -- dropping a clone of the handle shuts the writers down: in the synchronous modes that is a flush
+  -- (async mode: the drop of ANY clone sends the shutdown message and joins the writer thread)
+  | ["LDROPCLONE"] =>
+    let (s', _) := apply s .shutdown 0 {}
+    ({ s' with asyncDead := s.asyncDead || s.asyncMode }, "ok")
+  | ["LDROPALL"] => let (s', _) := apply s .shutdown 0 {}; (s', "ok")
   | ["FLUSH"] => apply s .flush 0 {}
   | ["SHUT"] => apply s .shutdown 0 {}
   | "RESTART" :: rest =>
@@ -162,7 +182,7 @@ def step (s : St) (toks : List String) : St × String :=
     ({ s with errSeen := s.st.errs.length },
       if new.isEmpty then "-" else ",".intercalate (new.map errKindStr))
   | "NOTE" :: _ => (s, "ok")
-  | ["MODE", _] => (s, "ok")
+  | ["MODE", m] => ({ s with asyncMode := m.startsWith "async" }, "ok")
   | ["BGCLEAN", _] => (s, "ok")
   | ["FOREIGN", _, _] => (s, "ok")
   | _ => (s, "bad-op")
